@@ -56,6 +56,14 @@ SafeOnlyWarrantedP(i) == Tr[i].skip = "" =>
          \/ (Tr[i].act.a = "ConsumeB" /\ n.k = "new" /\ p.c.safe)
          \/ (Tr[i].act.a = "Checker" /\ n.k = "upd" /\ p.un[n.t].in /\ ~p.un[n.t].unsafe /\ ~p.st[n.t].unsafe /\ ~p.st[n.t].canc
                 /\ (p.un[n.t].tr \/ p.mp[n.t].tr) /\ p.un[n.t].t0 + Delay < p.clock)
+\* C07: the checker reports a transaction safe only if no conflicting transaction is known (held in the mempool) at that moment
+SafeWithoutConflictP(i) == (Tr[i].act.a = "Checker" /\ Tr[i].skip = "") =>
+   \A j \in (Len(Tr[i-1].st.dl) + 1)..Len(Tr[i].st.dl) : LET n == Tr[i].st.dl[j]  p == Tr[i-1].st IN
+      (n.safe /\ ~n.proof) => \A t2 \in Tx : (t2 # n.t /\ p.mp[t2].st = "body") => Ins[t2] \cap Ins[n.t] = {}
+\* C06: a block cancels a transaction only for a different transaction of that block that spends one of its outpoints
+CancelWarrantedP(i) == (Tr[i].act.a = "Block" /\ Tr[i].skip = "") =>
+   \A j \in (Len(Tr[i-1].st.dl) + 1)..Len(Tr[i].st.dl) : LET n == Tr[i].st.dl[j]  p == Tr[i-1].st IN
+      (n.canc /\ ~p.st[n.t].canc) => \E k \in 1..Len(Blk[Tr[i].act.t]) : LET t2 == Blk[Tr[i].act.t][k] IN t2 # n.t /\ Ins[t2] \cap Ins[n.t] # {}
 \* C12: trust (the basis of a safe report) only comes from the trusted connection or a local submission
 TrustedSource(j, t) == \/ (Tr[j].act.a = "Arrive" /\ Tr[j].act.t = t /\ Tr[j].act.s \in {"TT", "TX", "LOC"})
                        \/ (Tr[j].act.a = "Inv" /\ Tr[j].act.t = t /\ Tr[j].act.s = "TT")
@@ -81,6 +89,8 @@ Judge(i) ==
   \cup One("NoPanic", i, NoPanicP(i)) \cup One("NoError", i, NoErrorP(i))
   \cup One("BlockDelivers", i, Tr[i].act.a = "init" \/ BlockStepP(i))
   \cup One("CancelOnConfirm", i, Tr[i].act.a = "init" \/ CancelP(i))
+  \cup One("SafeWithoutConflict", i, Tr[i].act.a = "init" \/ SafeWithoutConflictP(i))
+  \cup One("CancelWarranted", i, Tr[i].act.a = "init" \/ CancelWarrantedP(i))
 
 PInit == Init /\ l = 0 /\ bad = {}
 PNext == /\ l < Len(Tr) /\ l' = l + 1 /\ Load(l + 1)
